@@ -138,7 +138,14 @@ func newInterp(w *World, tt *TermTable, ex *Explorer, job *Job, funcs map[string
 	in.poolMonitor = job.Prop == "C13" || job.Prop == "C14" || job.Prop == "CXX"
 	in.stepBudget = job.StepBudget
 	if in.stepBudget == 0 {
+		// default: generous for small shapes; work may grow linearly with
+		// the sizes a job asks for (arguments >= 1000 are lengths)
 		in.stepBudget = 200000
+		for _, a := range job.Args {
+			if a >= 1000 {
+				in.stepBudget += 40 * a
+			}
+		}
 	}
 	in.allocBudget = job.AllocBudget
 	in.orderMode = job.OrderMode
